@@ -633,6 +633,18 @@ class MapEntryCompiler(FieldCompiler):
                     typing_compiler=self.typing_compiler,
                 ).py_type
 
+                if nested.field[1].type_name in WRAPPER_TYPES:
+                    # map_field() has no way to say that a value is an unwrapped
+                    # wrapper type: keep the wrapper message as the value type.
+                    self.py_v_type = get_type_reference(
+                        package=self.output_file.package,
+                        imports=self.output_file.imports_end,
+                        source_type=nested.field[1].type_name,
+                        typing_compiler=self.typing_compiler,
+                        unwrap=False,
+                        pydantic=self.output_file.pydantic_dataclasses,
+                    )
+
                 # Get proto types
                 self.proto_k_type = FieldDescriptorProtoType(nested.field[0].type).name
                 self.proto_v_type = FieldDescriptorProtoType(nested.field[1].type).name
